@@ -229,3 +229,63 @@ func callFlagFact(fs []Fact, field string, pol bool) bool {
 	}
 	return false
 }
+
+// sharedPackageState: uses, inside the given functions, of package-level variables of the repo's library packages whose
+// type can carry mutable state between calls (channels, maps, slices, pointers, interfaces, sync types, structs holding
+// such). Read-only sentinels (error values of other packages, time constants) are not repo variables of package varlink.
+func sharedPackageState(p *Prog, fns []*ssa.Function) []struct {
+	Fn *ssa.Function
+	G  *ssa.Global
+	At ssa.Instruction
+} {
+	var out []struct {
+		Fn *ssa.Function
+		G  *ssa.Global
+		At ssa.Instruction
+	}
+	mutableType := func(t types.Type) bool {
+		var walk func(t types.Type, d int) bool
+		walk = func(t types.Type, d int) bool {
+			if d > 4 {
+				return true
+			}
+			switch u := t.Underlying().(type) {
+			case *types.Chan, *types.Map, *types.Slice, *types.Pointer, *types.Interface, *types.Signature:
+				return true
+			case *types.Struct:
+				if n, ok := t.(*types.Named); ok && n.Obj().Pkg() != nil && (n.Obj().Pkg().Path() == "sync" || n.Obj().Pkg().Path() == "sync/atomic") {
+					return true
+				}
+				for i := 0; i < u.NumFields(); i++ {
+					if walk(u.Field(i).Type(), d+1) {
+						return true
+					}
+				}
+			case *types.Array:
+				return walk(u.Elem(), d+1)
+			}
+			return false
+		}
+		return walk(t, 0)
+	}
+	for _, f := range fns {
+		for _, b := range f.Blocks {
+			for _, in := range b.Instrs {
+				for _, op := range in.Operands(nil) {
+					g, ok := (*op).(*ssa.Global)
+					if !ok || g.Pkg == nil || g.Pkg.Pkg.Path() != pkgVarlink || strings.HasPrefix(g.Name(), "init$") {
+						continue
+					}
+					if pt, ok := g.Type().(*types.Pointer); ok && mutableType(pt.Elem()) {
+						out = append(out, struct {
+							Fn *ssa.Function
+							G  *ssa.Global
+							At ssa.Instruction
+						}{f, g, in})
+					}
+				}
+			}
+		}
+	}
+	return out
+}
